@@ -623,6 +623,7 @@ type ElemLoop struct {
 	Val   types.Object // range value variable (nil for index loops)
 	Idx   types.Object // index variable (nil if blank)
 	Whole bool         // every element is visited unless the body leaves early
+	Guard ast.Expr     // extra conjunct of an index loop's condition (`i < len(L) && g`): the loop also ends once g is false; Whole is false then
 	info  *types.Info
 	fbody ast.Node
 }
@@ -719,6 +720,12 @@ func elemLoops(info *types.Info, fbody ast.Node, isList func(e ast.Expr) bool) [
 			}
 			idx := objOf(info, init.Lhs[0])
 			cond, ok := s.Cond.(*ast.BinaryExpr)
+			var guard ast.Expr
+			if ok && cond.Op == token.LAND {
+				if inner, isBin := ast.Unparen(cond.X).(*ast.BinaryExpr); isBin {
+					cond, guard = inner, cond.Y
+				}
+			}
 			if !ok || idx == nil || cond.Op != token.LSS || objOf(info, cond.X) != idx {
 				return true
 			}
@@ -741,7 +748,7 @@ func elemLoops(info *types.Info, fbody ast.Node, isList func(e ast.Expr) bool) [
 			if assignedBetween(info, s.Body, idx, s.Body.Pos(), s.Body.End()) {
 				whole = false
 			}
-			out = append(out, &ElemLoop{Stmt: s, Body: s.Body, List: lc.Args[0], Idx: idx, Whole: whole, info: info, fbody: fbody})
+			out = append(out, &ElemLoop{Stmt: s, Body: s.Body, List: lc.Args[0], Idx: idx, Whole: whole && guard == nil, Guard: guard, info: info, fbody: fbody})
 		}
 		return true
 	})
@@ -828,6 +835,32 @@ func resolveLocal(info *types.Info, body ast.Node, e ast.Expr) ast.Expr {
 	return e
 }
 
+// resolveLocalAt: like resolveLocal, but a local with several definitions stands for the only one that reaches point
+// at (flags set together with it are respected by the path query: `v, ok = "", false … if !ok {return}`).
+func (r *RuleCtx) resolveLocalAt(e ast.Expr, at Pt) ast.Expr {
+	for i := 0; i < 3; i++ {
+		id, ok := ast.Unparen(e).(*ast.Ident)
+		if !ok {
+			return e
+		}
+		o, ok := r.Info.Uses[id].(*types.Var)
+		if !ok || o.IsField() {
+			return e
+		}
+		def, n := localDef(r.Info, r.FI.Decl.Body, o)
+		if n == 1 && def != nil {
+			e = def
+			continue
+		}
+		defs, ok := r.ReachingDefs(o, at, nil)
+		if !ok || len(defs) != 1 {
+			return e
+		}
+		e = defs[0]
+	}
+	return e
+}
+
 // ReachingDefs: the right-hand sides of the assignments to local variable obj that can reach point at (no other
 // assignment to obj in between), on paths that respect avoidEdge. ok=false if a definition without a usable
 // right-hand side (tuple assignment, range variable, inc/dec) reaches.
@@ -881,6 +914,28 @@ func (r *RuleCtx) ReachingDefs(obj types.Object, at Pt, avoidEdge func(b *cfgBlo
 			continue
 		}
 		defs = append(defs, rhs)
+	}
+	return defs, ok
+}
+
+// ReachingDefsDeep: like ReachingDefs, but a definition that is a plain copy of another local (`x = y`, as left behind
+// when a helper is read in place) is replaced by the definitions of that local reaching the copy.
+func (r *RuleCtx) ReachingDefsDeep(obj types.Object, at Pt, avoidEdge func(b *cfgBlock, i int) bool, depth int) (defs []ast.Expr, ok bool) {
+	ds, ok := r.ReachingDefs(obj, at, avoidEdge)
+	for _, d := range ds {
+		if id, isID := ast.Unparen(d).(*ast.Ident); isID && depth < 3 {
+			if v, isVar := r.Info.Uses[id].(*types.Var); isVar && !v.IsField() && v != obj && v.Pkg() != nil && v.Parent() != v.Pkg().Scope() {
+				if cp, found := r.F.PtOfNode(d); found {
+					sub, subOK := r.ReachingDefsDeep(v, cp, avoidEdge, depth+1)
+					if len(sub) > 0 || !subOK {
+						defs = append(defs, sub...)
+						ok = ok && subOK
+						continue
+					}
+				}
+			}
+		}
+		defs = append(defs, d)
 	}
 	return defs, ok
 }
